@@ -304,3 +304,42 @@ package app
 //@   requires !held(p.logBuffer.mx) && bufWF(p.logBuffer)
 //@   ensures !held(p.logBuffer.mx) && bufWF(p.logBuffer)
 //@   assigns logged[*], observed[*], pclog.ProcessLogBuffer.buffer[*], heap(Elem.Str), acquires[*]
+
+// ======================= ProjectRunner =======================
+//@ define noLocks() bool = forall m ref :: !held(m)
+//@ define runnerWF(p *ProjectRunner) bool = p.runningProcesses != nil && p.doneProcesses != nil &&
+//@    (forall k string :: k in p.runningProcesses ==> p.runningProcesses[k] != nil && procWF(p.runningProcesses[k])) &&
+//@    (forall k string :: k in p.doneProcesses ==> p.doneProcesses[k] != nil && procWF(p.doneProcesses[k]))
+
+//@ func (p *ProjectRunner) getRunningProcess
+//@   requires !held(p.runProcMutex)
+//@   ensures result == ite(name in p.runningProcesses, p.runningProcesses[name], nil)
+//@   assigns nothing
+//@ func (p *ProjectRunner) getDoneProcess
+//@   requires !held(p.doneProcMutex)
+//@   ensures result == ite(name in p.doneProcesses, p.doneProcesses[name], nil)
+//@   assigns nothing
+//@ define depProc(p *ProjectRunner, k string) *Process = ite(k in p.doneProcesses && p.doneProcesses[k] != nil, p.doneProcesses[k], ite(k in p.runningProcesses, p.runningProcesses[k], nil))
+//@ func (p *ProjectRunner) getDoneOrRunningProcess
+//@   requires !held(p.runProcMutex) && !held(p.doneProcMutex)
+//@   ensures result == depProc(p, name)
+//@   assigns nothing
+
+// C01/C05: what it means for a dependency to have met a depends_on condition
+//@ define satisfied(cond string, d *Process) bool =
+//@   (cond == "process_completed" ==> d.done) &&
+//@   (cond == "process_completed_successfully" ==> d.done && d.procState.ExitCode == 0) &&
+//@   (cond == "process_healthy" ==> cancelled(d.procReadyCtx) && d.procState.Health == "Ready") &&
+//@   (cond == "process_log_ready" ==> cancelled(d.procLogReadyCtx) && causeOk(d.procLogReadyCtx)) &&
+//@   (cond == "process_started" ==> closed(d.procStartedChan) || cancelled(d.procRunCtx))
+
+//@ ghost gateOpen(ref) bool
+
+//@ func (p *ProjectRunner) waitIfNeeded
+//@   requires noLocks() && runnerWF(p)
+//@   ensures c01: result == nil ==> (forall k string :: k in process.DependsOn && depProc(p, k) != nil ==> satisfied(process.DependsOn[k].Condition, depProc(p, k)))
+//@   ensures nolocks: noLocks()
+//@   sets gateOpen(process) := result == nil
+//@   assigns types.ProcessState.ExitCode[*], slept(), lastWait()
+//@   loop 1 invariant noLocks() && runnerWF(p)
+//@   loop 1 invariant forall k string :: seen(k) && k in process.DependsOn && depProc(p, k) != nil ==> satisfied(process.DependsOn[k].Condition, depProc(p, k))
